@@ -38,7 +38,8 @@ LEVEL_NOTE = ('Trusted: the substituter in this module (maximal [A-Za-z0-9_]+ ru
 SYMS = ['AB', 'ABC', 'XAB', 'A_B', 'AB2', 'by', 'te', 'BA', 'ABAB']
 # legal symbol names that, were they not symbols, would lex as numbers (trailing-H hexadecimal, b-binary)
 NUMLIKE = ['ACH', 'b1', 'DEH', '0FH']
-LOOKALIKE = ['ABCD', 'XABC', 'AB_', '_AB', 'A', 'B', 'AB2X', 'bytes', 'tent', 'ABA', 'BAB', 'XA_B', 'bye', 'ABBA', 'AAB']
+LOOKALIKE = ['ABCD', 'XABC', 'AB_', '_AB', 'A', 'B', 'AB2X', 'bytes', 'tent', 'ABA', 'BAB', 'XA_B', 'bye', 'ABBA', 'AAB',
+             'ab', 'Abc', 'BY', 'Te', 'xab']        # the last five are symbol names in another letter case: other words
 SEPS = [' ', ', ', ' + ', '(', ')', ' - ', '+', ',', ' * ']
 WORD = re.compile(r'[A-Za-z0-9_]+')
 
